@@ -217,6 +217,27 @@ def scan_foreign(mods, infos):
     return problems
 
 
+def outside_private_uses(mods, infos, names):
+    """Private method names of the four classes that code outside their
+    bodies mentions as an attribute (x._name): callable from outside."""
+    used = set()
+    for fname, tree in mods:
+        own = set()
+        if fname == "data.py":
+            for ci in infos.values():
+                for n in ast.walk(ci.node):
+                    own.add(id(n))
+        for n in ast.walk(tree):
+            if id(n) in own:
+                continue
+            if isinstance(n, ast.Attribute) and n.attr in names and n.attr.startswith("_"):
+                used.add(n.attr)
+            if isinstance(n, ast.Constant) and isinstance(n.value, str) and \
+                    n.value in names and n.value.startswith("_"):
+                used.add(n.value)      # getattr(x, "_name")
+    return used
+
+
 def foreign_method_names(mods):
     names = set()
     for fname, tree in mods:
@@ -845,8 +866,10 @@ def build_text():
     if problems:
         raise Reject("; ".join(problems[:6]))
     ctx = Ctx(infos, foreign_method_names(mods), builtin_method_names())
+    outside = outside_private_uses(mods, infos, ctx.callable_names)
     body = []
     entries = []
+    seen_idents = set()
     total = 0
     for cname in CLASSES:
         ci = infos[cname]
@@ -855,10 +878,19 @@ def build_text():
                 tr = MethodTr(ctx, cname, fn)
                 ir = tr.translate()
                 total += count(ir)
-                ident = "m_%s_%s" % (cname, name)
+                # no double underscores in Coq identifiers (reserved by extraction)
+                mangled = name.replace("__", "X")
+                if mangled.startswith("_"):
+                    mangled = "p" + mangled[1:]
+                ident = "m_%s_%s" % (cname, mangled)
+                if ident in seen_idents or "__" in ident:
+                    raise Reject("identifier clash for %s.%s" % (cname, name))
+                seen_idents.add(ident)
                 body.append(comment("%s.%s (%s, data.py line %d)" % (cname, name, kind, fn.lineno)))
                 body.append("Definition %s : stmt :=\n  %s.\n" % (ident, pp(ir, 2)))
-                entries.append("mkEntry %s %s %d %s" % (coq_str(cname), coq_str(name), tr.nvars, ident))
+                entries.append("mkEntry %s %s %d %s %s" % (
+                    coq_str(cname), coq_str(name), tr.nvars,
+                    "true" if name in outside else "false", ident))
     out = [HEAD]
     out.append(comment("slots: " + "; ".join("%s = %s" % (c, " ".join(infos[c].slots)) for c in CLASSES)))
     out.append(comment("inheritance: " + "; ".join("%s(%s)" % (c, ",".join(infos[c].bases)) for c in CLASSES)
@@ -866,6 +898,8 @@ def build_text():
     out.append(comment("method names also defined by other classes of the package or by builtin types "
                        "(calls on receivers other than self are translated as `own method or external`): "
                        + " ".join(sorted(ctx.ambiguous))))
+    out.append(comment("private names used by the package outside the four classes (e_ext): "
+                       + " ".join(sorted(outside))))
     out.append(comment("item writes into named local/global containers (not objects of the four classes): "
                        + "; ".join(ctx.container_writes)))
     out.append(comment("%d methods, %d IR statements" % (len(entries), total)))
